@@ -1,6 +1,6 @@
 (* Corollaries of the main theorem (Proofs/BijP.v) in the form the properties C08 and C13 state them. *)
 From Coq Require Import List ZArith Bool Arith Lia ZifyBool.
-From FJ Require Import Model.Num Model.Tensor Model.Bij Proofs.TensorP Proofs.BijP.
+From FJ Require Import Model.Num Model.Tensor Model.Bij Proofs.TensorP Proofs.TensorGet Proofs.BijP.
 Import ListNotations.
 
 Section C.
@@ -148,6 +148,21 @@ Section C.
   Proof.
     intros H Hr Hh. destruct (shape_sound _ _ _ _ _ _ H) as (sg & Hs & Hx & Hc & Hy & -> & _).
     cbn [den]. rewrite Hr. cbn [fst]. now apply tscatter_frame.
+  Qed.
+
+  (* ... and the indexed entries are exactly the child's image of the indexed entries (in-range, distinct positions) *)
+  Theorem partial_hit ix s b d x c sg rs :
+    sig_of (Partial ix s b) = Ok sg -> has_shape (fst sg) x = true -> cond_ok (snd sg) c ->
+    resolve_idx ix s = Some rs -> rs_ok rs s ->
+    tgather rs (fst (den O (Partial ix s b) d x c)) = fst (den O b d (tgather rs x) c).
+  Proof.
+    intros Hs Hx Hc Hr Hok. cbn [den]. rewrite Hr. cbn [fst]. cbn [sig_of] in Hs.
+    destruct (sig_of b) as [sgb|] eqn:Eb; cbn [bind] in Hs; [|discriminate].
+    unfold partial_sig in Hs. destruct (idx_supported ix); [|discriminate]. rewrite Hr in Hs.
+    destruct (shape_eqb (idx_shape rs s) (fst sgb)) eqn:Ee; [|discriminate]. injection Hs as <-.
+    apply shape_eqb_eq in Ee. cbn [fst snd] in *.
+    apply (gather_scatter ix s rs); auto. rewrite Ee.
+    apply (den_shape b d _ c sgb Eb); [|exact Hc]. rewrite <- Ee. eapply tgather_shape; eauto.
   Qed.
 
   (* ---------- Reshape only re-presents ---------- *)
